@@ -223,7 +223,13 @@ func NestingPackage(rng *core.Rng, name string, nrandom int) *Package {
 	var gen func(d int) string
 	gen = func(d int) string {
 		if d == 0 || rng.Chance(20) {
-			return operands[rng.Intn(len(operands))]
+			// (no literal leaves: a subexpression made of literals only is a constant expression, which the
+			// compiler evaluates exactly and rejects when it is negative)
+			for {
+				if o := operands[rng.Intn(len(operands))]; o != "7" {
+					return o
+				}
+			}
 		}
 		op := nestOps[rng.Intn(len(nestOps))]
 		l, r := gen(d-1), gen(d-1)
